@@ -47,7 +47,10 @@ type die struct{ Reason error }
 type block struct {
 	Entered chan struct{}
 	Release chan struct{}
+	Exit    chan error // optional: what the handler returns once released (errPanicNow = panic)
 }
+
+var errPanicNow = errors.New("c17-panic-after-release")
 
 // ---------------------------------------------------------------------------
 // instrumented application
@@ -100,7 +103,7 @@ type App struct {
 
 // blockMember parks the member inside its message handler; false = watchdog
 func (a *App) blockMember(pid gen.PID) bool {
-	b := &block{Entered: make(chan struct{}), Release: make(chan struct{})}
+	b := &block{Entered: make(chan struct{}), Release: make(chan struct{}), Exit: make(chan error, 1)}
 	a.blocked.Store(pid, b)
 	if err := node.Send(pid, *b); err != nil {
 		a.blocked.Delete(pid)
@@ -116,10 +119,41 @@ func (a *App) blockMember(pid gen.PID) bool {
 	}
 }
 
-func (a *App) releaseMember(pid gen.PID) {
-	if v, ok := a.blocked.LoadAndDelete(pid); ok {
-		close(v.(*block).Release)
+func (a *App) releaseMember(pid gen.PID) { a.releaseMemberWith(pid, "") }
+
+// releaseMemberWith lets the busy member leave its handler; how: "" (returns nil), normal,
+// custom (returns that reason), panic (panics), kill (node.Kill while it is still busy)
+func (a *App) releaseMemberWith(pid gen.PID, how string) {
+	v, ok := a.blocked.LoadAndDelete(pid)
+	if !ok {
+		return
 	}
+	b := v.(*block)
+	switch how {
+	case "normal":
+		b.Exit <- gen.TerminateReasonNormal
+	case "custom":
+		b.Exit <- errCustom2
+	case "panic":
+		b.Exit <- errPanicNow
+	case "kill":
+		safe(func() error { return node.Kill(pid) })
+	}
+	close(b.Release)
+}
+
+func reasonOfRelease(how string) error {
+	switch how {
+	case "normal":
+		return gen.TerminateReasonNormal
+	case "custom":
+		return errCustom2
+	case "panic":
+		return gen.TerminateReasonPanic
+	case "kill":
+		return gen.TerminateReasonKill
+	}
+	return nil
 }
 
 func (a *App) releaseAll() {
@@ -290,6 +324,14 @@ func (a *App) factory(slot int) gen.ProcessFactory {
 			case block:
 				close(m.Entered)
 				<-m.Release
+				select {
+				case e := <-m.Exit:
+					if e == errPanicNow {
+						panic("c17 requested panic after release")
+					}
+					return e
+				default:
+				}
 			case string:
 				if m == "panic" {
 					panic("c17 requested panic")
@@ -430,6 +472,17 @@ func activity() int64 {
 // nothing moved (a scan alone is not atomic: a member checked early can be woken by a
 // member checked late, e.g. by the shutdown exit a dying member of a permanent application
 // sends to the others)
+// goid returns the id of the calling goroutine
+func goid() string {
+	b := make([]byte, 48)
+	b = b[:runtime.Stack(b, false)]
+	s := strings.TrimPrefix(string(b), "goroutine ")
+	if i := strings.IndexByte(s, ' '); i > 0 {
+		return s[:i]
+	}
+	return s
+}
+
 func quiesce(apps ...*App) bool {
 	return hk.WaitUntil(20*time.Second, func() bool {
 		before := activity()
